@@ -1371,6 +1371,8 @@ class Big(Family):
             Doc('big-valid-900', self._doc(900)),          # ~ 78 KiB: beyond the 64 KiB buffer of the defusable reader
             # exactly 256 validation errors (an exit status is 8 bits wide)
             Doc('big-256-errors', self._doc(256).replace(' k="', ' k="x'), 'fault:lexical'),
+            # its neighbour in one command run: 256 + 1 errors
+            Doc('big-1-error', self._doc(30).replace(' k="', ' k="x', 1), 'fault:lexical'),
         ]
 
 
